@@ -103,6 +103,82 @@ theorem batch_complete (l : Multiset ℕ) (k m : ℕ)
   have := Nat.le_of_dvd hs1 h2
   omega
 
+/-! ### C07: tiling of [0,T) by monotone boundaries; pigeonhole for complete matrices -/
+
+/-- boundaries b 0 = 0 ≤ b 1 ≤ … ≤ b N = T: every position below T lies in exactly one section. -/
+theorem interval_tiling (b : ℕ → ℕ) (N T : ℕ) (h0 : b 0 = 0) (hN : b N = T) :
+    ∀ p, p < T → ∃ c, c < N ∧ b c ≤ p ∧ p < b (c + 1) := by
+  intro p hp
+  by_contra hcon
+  have hall : ∀ c, c ≤ N → b c ≤ p := by
+    intro c
+    induction c with
+    | zero => intro _; omega
+    | succ c ih =>
+        intro hc
+        have ihc := ih (by omega)
+        by_contra hlt
+        exact hcon ⟨c, by omega, ihc, by omega⟩
+  have := hall N (le_refl N)
+  omega
+
+theorem interval_tiling_unique (b : ℕ → ℕ) (N : ℕ) (hmono : ∀ c, c < N → b c ≤ b (c + 1))
+    (c c' p : ℕ) (hc : c < N) (hc' : c' < N) (h1 : b c ≤ p ∧ p < b (c + 1)) (h2 : b c' ≤ p ∧ p < b (c' + 1)) :
+    c = c' := by
+  have mono : ∀ x y, x ≤ y → y ≤ N → b x ≤ b y := by
+    intro x y hxy
+    induction y with
+    | zero => intro _; have : x = 0 := by omega
+              subst this; exact le_refl _
+    | succ y ih =>
+        intro hy
+        rcases Nat.lt_or_ge x (y + 1) with hlt | hge
+        · exact le_trans (ih (by omega) (by omega)) (hmono y (by omega))
+        · have : x = y + 1 := by omega
+          subst this; exact le_refl _
+  rcases Nat.lt_trichotomy c c' with h | h | h
+  · have := mono (c + 1) c' (by omega) (by omega); omega
+  · exact h
+  · have := mono (c' + 1) c (by omega) (by omega); omega
+
+/-- T pairwise distinct valid keys, where valid keys embed injectively into [0,T) via g, hit every valid key. -/
+theorem pigeonhole_pairs {α : Type} (T : ℕ) (g : α → ℕ) (key : Fin T → α) (valid : α → Prop)
+    (hkv : ∀ k, valid (key k)) (hinj_key : Function.Injective key)
+    (hg_range : ∀ p, valid p → g p < T) (hg_inj : ∀ p q, valid p → valid q → g p = g q → p = q) :
+    ∀ p, valid p → ∃ k, key k = p := by
+  intro p hp
+  let h : Fin T → Fin T := fun k => ⟨g (key k), hg_range _ (hkv k)⟩
+  have hinj : Function.Injective h := by
+    intro a b hab
+    have : g (key a) = g (key b) := by simpa [h] using congrArg Fin.val hab
+    exact hinj_key (hg_inj _ _ (hkv a) (hkv b) this)
+  have hsurj : Function.Surjective h := Finite.injective_iff_surjective.mp hinj
+  obtain ⟨k, hk⟩ := hsurj ⟨g p, hg_range p hp⟩
+  refine ⟨k, ?_⟩
+  have : g (key k) = g p := by simpa [h] using congrArg Fin.val hk
+  exact hg_inj _ _ (hkv k) hp this
+
+/-- m pairwise distinct valid keys that hit every valid key: m = T (the matrix is complete). -/
+theorem complete_count {α : Type} (T m : ℕ) (g : α → ℕ) (key : Fin m → α) (valid : α → Prop)
+    (hkv : ∀ k, valid (key k)) (hinj_key : Function.Injective key)
+    (hg_range : ∀ p, valid p → g p < T) (hg_inj : ∀ p q, valid p → valid q → g p = g q → p = q)
+    (hg_surj : ∀ t, t < T → ∃ p, valid p ∧ g p = t)
+    (hcover : ∀ p, valid p → ∃ k, key k = p) : m = T := by
+  let h : Fin m → Fin T := fun k => ⟨g (key k), hg_range _ (hkv k)⟩
+  have hinj : Function.Injective h := by
+    intro a b hab
+    have : g (key a) = g (key b) := by simpa [h] using congrArg Fin.val hab
+    exact hinj_key (hg_inj _ _ (hkv a) (hkv b) this)
+  have hsurj : Function.Surjective h := by
+    intro t
+    obtain ⟨p, hp, hgp⟩ := hg_surj t.val t.isLt
+    obtain ⟨k, hk⟩ := hcover p hp
+    refine ⟨k, ?_⟩
+    apply Fin.ext
+    simp [h, hk, hgp]
+  have := Fintype.card_of_bijective ⟨hinj, hsurj⟩
+  simpa using this
+
 /-! ### C15: the combinadic rank is strictly monotone (hence injective) and bounded by C(n,k);
     with equal finite cardinalities this makes unranking a bijection. -/
 
